@@ -39,14 +39,14 @@ struct Cfg {
   std::string geom = "Cylindrical";
 };
 
-static void emit_config(vh::Trace& tr, const Cfg& c, const ProjDataInfoCylindrical& pdi, const std::string& name) {
+static void emit_config(vh::Trace& tr, const Cfg& c, const ProjDataInfoCylindrical& pdi, const std::string& name, const std::string& hist) {
   const Scanner& sc = *pdi.get_scanner_ptr();
   std::vector<std::vector<int>> segs;
   for (int s = pdi.get_min_segment_num(); s <= pdi.get_max_segment_num(); ++s)
     segs.push_back({ s, pdi.get_min_ring_difference(s), pdi.get_max_ring_difference(s), pdi.get_min_axial_pos_num(s), pdi.get_max_axial_pos_num(s) });
   vh::Json j("Config");
-  j.num("id", ++cfg_id).str("name", name).str("geom", c.geom).boolean("arc", c.arc).num("N", c.N).num("R", c.R).num("span", c.span)
-      .boolean("ge", c.ge).num("maxDelta", c.maxDelta).num("mash", c.mash).num("tofMash", pdi.get_tof_mash_factor()).num("maxT", c.maxT)
+  j.num("id", ++cfg_id).str("name", name).str("hist", hist).str("geom", c.geom).boolean("arc", c.arc).num("N", c.N).num("R", c.R).num("span", c.span)
+      .boolean("ge", c.ge).num("maxDelta", c.maxDelta).num("mash", c.N / 2 / pdi.get_num_views()).num("tofMash", pdi.get_tof_mash_factor()).num("maxT", c.maxT)
       .num("minTang", pdi.get_min_tangential_pos_num()).num("maxTang", pdi.get_max_tangential_pos_num())
       .num("minSeg", pdi.get_min_segment_num()).num("maxSeg", pdi.get_max_segment_num())
       .num("numViews", pdi.get_num_views()).num("minView", pdi.get_min_view_num())
@@ -234,8 +234,9 @@ static void record_tof_bins(vh::Trace& tr, const ProjDataInfo& pdi) {
 }
 
 // choose rows: everything when few, otherwise the edges of every index range + seeded samples
-static void record_config(vh::Trace& tr, const Cfg& c, const ProjDataInfoCylindrical& pdi, const std::string& name, long budget, vh::Rng& rng) {
-  emit_config(tr, c, pdi, name);
+static void record_config(vh::Trace& tr, const Cfg& c, const ProjDataInfoCylindrical& pdi, const std::string& name, long budget, vh::Rng& rng,
+                          const std::string& hist = "fresh") {
+  emit_config(tr, c, pdi, name, hist);
   double total = 0;
   for (int s = pdi.get_min_segment_num(); s <= pdi.get_max_segment_num(); ++s)
     total += (double)pdi.get_num_axial_poss(s) * pdi.get_num_views() * pdi.get_num_tof_poss();
@@ -286,6 +287,32 @@ static void run_cfg(vh::Trace& tr, Cfg c, const std::string& name, long budget, 
   if (!p) return;
   std::string m2;
   if (vh::threw([&] { record_config(tr, c, *p, name, budget, rng); }, &m2)) tr.emit(vh::Json("DriverError").str("name", name).str("msg", m2));
+  // Re-use histories on the SAME object (its lazily filled tables have been used above): the coordinates
+  // must be those of the new sampling.  The Config event describes the object's current state.
+  const long b2 = std::max(2L, budget / 3);
+  // A: fewer segments, narrower (asymmetric) tangential range
+  {
+    bool changed = false;
+    if (vh::threw([&] {
+          const int ms = p->get_max_segment_num();
+          if (ms >= 1) { p->reduce_segment_range(-(ms - 1), ms - 1); changed = true; }
+          const int t0 = p->get_min_tangential_pos_num(), t1 = p->get_max_tangential_pos_num();
+          if (t0 + 1 <= 0 && t1 - 2 >= 0) { p->set_min_tangential_pos_num(t0 + 1); p->set_max_tangential_pos_num(t1 - 2); changed = true; }
+        }, &m2)) { tr.emit(vh::Json("DriverError").str("name", name).str("msg", m2)); return; }
+    if (changed && vh::threw([&] { record_config(tr, c, *p, name, b2, rng, "ranges"); }, &m2)) tr.emit(vh::Json("DriverError").str("name", name).str("msg", m2));
+  }
+  // B: other view mashing / other TOF mashing (classes that support it)
+  if (c.geom == "Cylindrical") {
+    bool changed = false;
+    if (vh::threw([&] {
+          for (int m : { 2, 1, 3, 4 })
+            if (m != c.mash && (c.N / 2) % m == 0 && c.N / 2 / m >= 1) { p->set_num_views(c.N / 2 / m); c.mash = m; changed = true; break; }
+          if (p->get_tof_mash_factor() > 0)
+            for (int tm : { 3, 1, 5 })
+              if (tm != p->get_tof_mash_factor() && tm <= c.maxT && (c.maxT / tm) % 2 == 1) { p->set_tof_mash_factor(tm); c.tofMash = tm; changed = true; break; }
+        }, &m2)) { tr.emit(vh::Json("DriverError").str("name", name).str("msg", m2)); return; }
+    if (changed && vh::threw([&] { record_config(tr, c, *p, name, b2, rng, "views-tof"); }, &m2)) tr.emit(vh::Json("DriverError").str("name", name).str("msg", m2));
+  }
 }
 
 // Generic geometry: the crystal map lists detectors on a circle (psi = 2 pi d / N from the -y axis, ring r at
@@ -305,18 +332,28 @@ static shared_ptr<Scanner> make_generic(int N, int R, const std::string& dir, fl
   return sc;
 }
 
-static void arc_rows(vh::Trace& tr, const std::string& name, shared_ptr<Scanner> sc, int span, int numTang, int variant, long nrows, vh::Rng& rng) {
+// One set_up of the ArcCorrection object `ac` (which may have been set up before: `uses` counts the
+// earlier set_ups of this object) followed by recorded rows.  The ArcConfig event carries the parameters
+// of the CURRENT set_up; TLC checks the rows exactly as for a fresh object.
+//   variant 0: default range and bin size            1: nb1 bins, 2 x bin size     2: nb1 bins, 1.5 x bin size (same bins, other size)
+//           3: nb2 = about half the bins, default size  4: nb2 bins, 0.75 x bin size                 5: 33 bins, default size (shared object across scanners)
+static void arc_rows(vh::Trace& tr, ArcCorrection& ac, int& uses, const std::string& name, shared_ptr<Scanner> sc, int span, int numTang, int variant, long nrows, vh::Rng& rng) {
   const int N = sc->get_num_detectors_per_ring(), R = sc->get_num_rings();
   shared_ptr<ProjDataInfo> pdi;
   std::string msg;
   if (vh::threw([&] { pdi = ProjDataInfo::construct_proj_data_info(sc, span, std::min(R - 1, span / 2), N / 2, numTang, false, 0); }, &msg)) return;
   shared_ptr<const ProjDataInfo> cpdi = pdi;
-  ArcCorrection ac;
   Succeeded ok = Succeeded::no;
+  const float bs = sc->get_default_bin_size() > 0 ? sc->get_default_bin_size() : pdi->get_sampling_in_s(Bin(0, 0, 0, 0));
+  const int nb1 = numTang | 1, nb2 = numTang / 2 + 1;
   if (variant == 0) ok = ac.set_up(cpdi);
-  else if (variant == 1) ok = ac.set_up(cpdi, numTang | 1, sc->get_default_bin_size() > 0 ? sc->get_default_bin_size() * 2 : 2 * pdi->get_sampling_in_s(Bin(0, 0, 0, 0)));
-  else ok = ac.set_up(cpdi, numTang / 2 + 1);
+  else if (variant == 1) ok = ac.set_up(cpdi, nb1, bs * 2);
+  else if (variant == 2) ok = ac.set_up(cpdi, nb1, bs * 1.5F);
+  else if (variant == 3) ok = ac.set_up(cpdi, nb2);
+  else if (variant == 4) ok = ac.set_up(cpdi, nb2, bs * 0.75F);
+  else ok = ac.set_up(cpdi, 33, bs);
   if (ok != Succeeded::yes) return;
+  const int reuse = uses++;
   const ProjDataInfoCylindricalNoArcCorr& in = ac.get_not_arc_corrected_proj_data_info();
   const ProjDataInfoCylindricalArcCorr& out = ac.get_arc_corrected_proj_data_info();
   const int t0 = in.get_min_tangential_pos_num(), t1 = in.get_max_tangential_pos_num();
@@ -334,7 +371,7 @@ static void arc_rows(vh::Trace& tr, const std::string& name, shared_ptr<Scanner>
     es.push_back(vh::fx(le.s(), 12));
   }
   vh::Json jc("ArcConfig");
-  jc.num("id", ++cfg_id).str("name", name).num("N", N).num("variant", variant).num("t0", t0).num("t1", t1).num("o0", o0).num("o1", o1)
+  jc.num("id", ++cfg_id).str("name", name).num("N", N).num("variant", variant).num("reuse", reuse).num("t0", t0).num("t1", t1).num("o0", o0).num("o1", o1)
       .num("dout12", vh::fx(out.get_tangential_sampling(), 12)).num("dout16", vh::fx(out.get_tangential_sampling(), 16)).num("sampling_s12", vh::fx(out.get_sampling_in_s(Bin(0, 0, 0, 0)), 12));
   put(jc, "eb", eb); jc.arr("es", es);
   tr.emit(jc);
@@ -437,6 +474,7 @@ int main(int argc, char** argv) {
         }
       }
   } else if (mode == "arc") {
+    ArcCorrection shared_ac; int shared_uses = 0;
     for (int t = Scanner::E931; t < Scanner::User_defined_scanner; ++t) {
       shared_ptr<Scanner> sc;
       if (vh::threw([&] { sc.reset(new Scanner(static_cast<Scanner::Type>(t))); })) continue;
@@ -445,16 +483,26 @@ int main(int argc, char** argv) {
       if (N < 4 || N % 2 || R < 1 || sc->get_scanner_geometry() != "Cylindrical") continue;
       if (stage == 0 && (t % 4) != (int)(vh::seed_from_env() % 4)) continue;
       const int nt = std::min(std::min(sc->get_max_num_non_arccorrected_bins(), N - 1), 380);
-      for (int variant = 0; variant < 3; ++variant) {
+      // history on ONE object: fresh set_up, then re-use with (other bins, other size), (same bins, other size), ...
+      ArcCorrection ac; int uses = 0;
+      for (int variant = 0; variant < 5; ++variant) {
         shared_ptr<Scanner> sc2(new Scanner(*sc));
-        vh::threw([&] { arc_rows(tr, sc->get_name(), sc2, 1, nt, variant, budget, rng); });
+        vh::threw([&] { arc_rows(tr, ac, uses, sc->get_name(), sc2, 1, nt, variant, variant == 0 ? budget : std::max(4L, budget / 2), rng); });
+      }
+      // one object shared by all scanners: same number of bins, other scanner / bin size
+      {
+        shared_ptr<Scanner> sc2(new Scanner(*sc));
+        vh::threw([&] { arc_rows(tr, shared_ac, shared_uses, sc->get_name(), sc2, 1, nt, 5, 4, rng); });
       }
     }
-    for (int N : { 8, 16, 32, 64, 128, 256 })
-      for (int variant = 0; variant < 3; ++variant) {
+    for (int N : { 8, 16, 32, 64, 128, 256 }) {
+      ArcCorrection ac; int uses = 0;
+      const int nt = rng.range(N / 2, N - 1);
+      for (int variant = 0; variant < 5; ++variant) {
         shared_ptr<Scanner> sc = vh::make_scanner(N, 2, 0, "Cylindrical");
-        vh::threw([&] { arc_rows(tr, "gen", sc, 1, rng.range(N / 2, N - 1), variant, budget, rng); });
+        vh::threw([&] { arc_rows(tr, ac, uses, "gen", sc, 1, nt, variant, variant == 0 ? budget : std::max(4L, budget / 2), rng); });
       }
+    }
   }
   return 0;
 }
